@@ -26,6 +26,17 @@ pub struct Cs {
 pub const TARGETS: [&str; 4] = ["app", "app::db", "application", "net"];
 pub const LEVEL_NAMES: [&str; 6] = ["OFF", "ERROR", "WARN", "INFO", "DEBUG", "TRACE"];
 
+thread_local! {
+    static XPARENT: std::cell::RefCell<Option<tracing::Id>> = const { std::cell::RefCell::new(None) };
+}
+/// explicit parent used by the callsites of `POOL_XE` on this thread
+pub fn set_xparent(id: Option<tracing::Id>) {
+    XPARENT.with(|x| *x.borrow_mut() = id);
+}
+pub fn xparent() -> Option<tracing::Id> {
+    XPARENT.with(|x| x.borrow().clone())
+}
+
 include!(concat!(env!("OUT_DIR"), "/pool.rs"));
 
 pub fn level_of(l: &tracing_core::Level) -> usize {
@@ -65,6 +76,7 @@ fn class_base(level: usize, target: usize, kind: Kind) -> usize {
 pub struct Fresh {
     next: Vec<AtomicUsize>,
     next_xp: Vec<AtomicUsize>,
+    next_xe: Vec<AtomicUsize>,
 }
 impl Default for Fresh {
     fn default() -> Self {
@@ -76,6 +88,7 @@ impl Fresh {
         Fresh {
             next: (0..5 * 4 * 3).map(|_| AtomicUsize::new(0)).collect(),
             next_xp: (0..5 * 4).map(|_| AtomicUsize::new(0)).collect(),
+            next_xe: (0..5 * 4).map(|_| AtomicUsize::new(0)).collect(),
         }
     }
     /// next unused copy of the class, or None when the class is exhausted
@@ -95,6 +108,16 @@ impl Fresh {
         let n = self.next_xp[class].fetch_add(1, Ordering::Relaxed);
         if n < XP_COPIES {
             Some(&POOL_XP[class * XP_COPIES + n])
+        } else {
+            None
+        }
+    }
+    /// next unused copy of an event callsite written `event!(parent: xparent(), ..)`
+    pub fn take_xparent_event(&self, level: usize, target: usize) -> Option<&'static Cs> {
+        let class = (level - 1) * 4 + target;
+        let n = self.next_xe[class].fetch_add(1, Ordering::Relaxed);
+        if n < XP_COPIES {
+            Some(&POOL_XE[class * XP_COPIES + n])
         } else {
             None
         }
